@@ -19,7 +19,9 @@ type uField struct {
 	PType    int    // proto type number the scalar compiles to
 	J5Kind   string // name of the (j5.ext.v1.field) alternative
 	Required bool
-	Bang     bool // print required as '!' instead of an attribute
+	Bang     bool // print required as '!' / optional as '?' instead of an attribute
+	Foreign  *[2]string // (package, entity) of a foreign key
+	Optional bool
 }
 
 type eKey struct {
@@ -36,8 +38,9 @@ type eMethod struct {
 	Name     string
 	Verb     int // client_j5pb.HTTPMethod
 	Path     string
-	Request  []uField
-	Response []uField
+	Request    []uField
+	Response   []uField
+	NoResponse bool // no response block: google.api.HttpBody
 }
 
 type eCommand struct {
@@ -81,9 +84,13 @@ func optBytes(s *string) string {
 func (u uField) coq() string {
 	kind := fmt.Sprintf("(KScalar %d %s)", u.PType, vh.BytesTerm(u.J5Kind))
 	if u.Key {
-		kind = fmt.Sprintf("(KKey %s %s)", vh.BoolTerm(u.Primary), optBytes(u.Tenant))
+		foreign := "None"
+		if u.Foreign != nil {
+			foreign = fmt.Sprintf("(Some (%s, %s))", vh.BytesTerm(u.Foreign[0]), vh.BytesTerm(u.Foreign[1]))
+		}
+		kind = fmt.Sprintf("(KKey %s %s %s)", vh.BoolTerm(u.Primary), foreign, optBytes(u.Tenant))
 	}
-	return fmt.Sprintf("(mkU %s %s %s)", vh.BytesTerm(u.Name), kind, vh.BoolTerm(u.Required))
+	return fmt.Sprintf("(mkU %s %s %s %s)", vh.BytesTerm(u.Name), kind, vh.BoolTerm(u.Required), vh.BoolTerm(u.Optional))
 }
 
 func coqList[T any](xs []T, f func(T) string) string {
@@ -109,7 +116,11 @@ func (d *entityDecl) coq() string {
 		coqList(d.Events, func(e eEvent) string { return fmt.Sprintf("(mkEv %s %s)", vh.BytesTerm(e.Name), fieldsCoq(e.Fields)) }),
 		coqList(d.Commands, func(c eCommand) string {
 			return fmt.Sprintf("(mkC %s %s %s)", optBytes(c.Name), optBytes(c.Base), coqList(c.Methods, func(m eMethod) string {
-				return fmt.Sprintf("(mkM %s %d %s %s %s)", vh.BytesTerm(m.Name), m.Verb, vh.BytesTerm(m.Path), fieldsCoq(m.Request), fieldsCoq(m.Response))
+				resp := "None"
+				if !m.NoResponse {
+					resp = "(Some " + fieldsCoq(m.Response) + ")"
+				}
+				return fmt.Sprintf("(mkM %s %d %s %s %s)", vh.BytesTerm(m.Name), m.Verb, vh.BytesTerm(m.Path), fieldsCoq(m.Request), resp)
 			}))
 		}),
 		coqList(d.Summaries, func(s eSummary) string { return fmt.Sprintf("(mkS %s %s)", vh.BytesTerm(s.Name), fieldsCoq(s.Fields)) }),
@@ -135,11 +146,19 @@ func printField(sb *strings.Builder, indent, word string, u uField, extra ...str
 	sb.WriteString(indent + word + " " + u.Name + " ")
 	if u.Required && u.Bang {
 		sb.WriteString("! ")
+	} else if u.Optional && u.Bang {
+		sb.WriteString("? ")
 	}
 	sb.WriteString(u.j5sType())
 	var attrs []string
 	if u.Required && !u.Bang {
 		attrs = append(attrs, "required = true")
+	}
+	if u.Optional && (!u.Bang || u.Required) {
+		attrs = append(attrs, "optional = true")
+	}
+	if u.Key && u.Foreign != nil {
+		attrs = append(attrs, fmt.Sprintf("foreign = %q", u.Foreign[0]+"."+u.Foreign[1]))
 	}
 	if u.Key && u.Primary {
 		attrs = append(attrs, "primary = true")
@@ -201,11 +220,15 @@ func (d *entityDecl) j5s() string {
 			for _, f := range m.Request {
 				printField(&sb, "\t\t\t\t", "field", f)
 			}
-			sb.WriteString("\t\t\t}\n\t\t\tresponse {\n")
-			for _, f := range m.Response {
-				printField(&sb, "\t\t\t\t", "field", f)
+			sb.WriteString("\t\t\t}\n")
+			if !m.NoResponse {
+				sb.WriteString("\t\t\tresponse {\n")
+				for _, f := range m.Response {
+					printField(&sb, "\t\t\t\t", "field", f)
+				}
+				sb.WriteString("\t\t\t}\n")
 			}
-			sb.WriteString("\t\t\t}\n\t\t}\n")
+			sb.WriteString("\t\t}\n")
 		}
 		sb.WriteString("\t}\n")
 	}
